@@ -29,6 +29,8 @@ type vService struct {
 	dup   bool // declares the shared root field `dup`
 	node  bool // declares Query.node
 	probe bool // declares a node-shaped root field with another name
+	marked bool // its Node type T also implements the interface Marked, which only this service declares
+	probe2 bool // declares a root field that returns Node but takes more than the id
 	idx   int
 }
 
@@ -50,6 +52,14 @@ func vPickFields(tag string) []vField {
 	return []vField{f1, f2}
 }
 
+// vPickNodeFields: a Node type may also declare nothing but its id
+func vPickNodeFields(tag string) []vField {
+	if verifChoice(tag+".idonly", 2) == 1 {
+		return nil
+	}
+	return vPickFields(tag)
+}
+
 func vPickSubset(tag string, a, b string) []string {
 	switch verifChoice(tag+".subset", 3) {
 	case 0:
@@ -65,7 +75,7 @@ func vPickType(tag string, kinds int) vType {
 	case 1:
 		return vType{kind: "object", fields: vPickFields(tag)}
 	case 2:
-		return vType{kind: "object", node: true, fields: vPickFields(tag)}
+		return vType{kind: "object", node: true, fields: vPickNodeFields(tag)}
 	case 3:
 		return vType{kind: "enum", values: vPickSubset(tag, "A", "B")}
 	case 4:
@@ -103,6 +113,10 @@ func (s vService) sdl() string {
 		if t.node {
 			impl = " implements Node"
 		}
+		if s.marked {
+			impl = " implements Node & Marked"
+			b.WriteString("interface Marked { id: ID! }\n")
+		}
 		b.WriteString("type T" + impl + " { " + fields(false) + " }\n")
 	case "enum":
 		b.WriteString("enum T { " + strings.Join(t.values, " ") + " }\n")
@@ -122,6 +136,9 @@ func (s vService) sdl() string {
 	}
 	if s.probe {
 		b.WriteString(" lookup(id: ID!): Node")
+	}
+	if s.probe2 {
+		b.WriteString(" revision(id: ID!, rev: Int): Node")
 	}
 	if t.kind == "object" || t.kind == "enum" || t.kind == "union" || t.kind == "scalar" {
 		b.WriteString(" t" + verifItoa(s.idx) + ": T")
@@ -159,7 +176,7 @@ func vFieldNames(fs []vField) []string {
 
 // vConflict says whether two services cannot be combined (the list of C05), and why
 func vConflict(a, b vService) string {
-	if a.dup && b.dup {
+	if (a.dup && b.dup) || (a.probe2 && b.probe2) {
 		return "same root field declared twice"
 	}
 	ta, tb := a.t, b.t
@@ -290,6 +307,12 @@ func vPickServices() []vService {
 		if i == 1 {
 			svcs[i].probe = verifChoice(tag+".probe", 2) == 1
 		}
+		if i <= 1 {
+			svcs[i].probe2 = verifChoice(tag+".probe2", 2) == 1
+		}
+		if i == 0 && svcs[i].t.kind == "object" && svcs[i].t.node {
+			svcs[i].marked = verifChoice(tag+".marked", 2) == 1
+		}
 	}
 	return svcs
 }
@@ -362,6 +385,9 @@ func VerifMerge() {
 			if s.probe {
 				verifAssert(sc.Types["Query"].Fields.ForName("lookup") != nil, "every root field of every service is in the gateway schema (lookup)")
 			}
+			if s.probe2 {
+				verifAssert(sc.Types["Query"].Fields.ForName("revision") != nil, "every root field of every service is in the gateway schema (revision)")
+			}
 			if t.kind == "" {
 				continue
 			}
@@ -403,6 +429,13 @@ func VerifMerge() {
 					found = found || i == "Node"
 				}
 				verifAssert(found, "interface implementations are preserved")
+			}
+			if s.marked {
+				found := false
+				for _, i := range d.Interfaces {
+					found = found || i == "Marked"
+				}
+				verifAssert(found, "interface implementations declared by one service only are preserved")
 			}
 		}
 		// nothing that no service declared
